@@ -43,6 +43,10 @@ Judge(cl) == /\ bad' = bad \cup NewBad(cl)
              /\ hits' = hits \cup {c[1] : c \in {x \in cl : Len(x) = 2 \/ x[3]}}
              /\ halt' = FALSE
              /\ l' = l + 1
+StuckSet(names) == /\ bad' = bad \cup names /\ halt' = TRUE /\ first' = IF first = 0 THEN l ELSE first
+                   /\ l' = l + 1 /\ UNCHANGED <<vars, dr, hits>>
+(* a run that began while no job was pending or running must submit exactly the stale part of the cone (C06) *)
+PlanBroken == {"C02_set"} \cup (IF conv.ok THEN {"C06_rerun_exact"} ELSE {})
 Stuck(name) == /\ bad' = bad \cup {name} /\ halt' = TRUE /\ first' = IF first = 0 THEN l ELSE first
                /\ l' = l + 1 /\ UNCHANGED <<vars, dr, hits>>
 
@@ -62,7 +66,7 @@ TraceInit ==
   /\ gp = [pc |-> "idle", sel |-> {}, b |-> [t \in w.T |-> "U"], todo |-> {}, plan |-> {},
            mtrk |-> [t \in w.T |-> NoJob], mhsh |-> [t \in w.T |-> NoRec], hashing |-> FALSE,
            fs0 |-> [f \in AllIn(w) \cup AllOut(w) |-> Missing]]
-  /\ conv = [ok |-> FALSE, sel |-> {}]
+  /\ conv = [ok |-> FALSE, sel |-> {}, shelf |-> [t \in w.T |-> [away |-> FALSE, trk |-> NoJob, hsh |-> NoRec]]]
   /\ cnt = [env |-> 0, faults |-> 0, cmds |-> 0]
   /\ hist = << >>
 
@@ -112,7 +116,7 @@ TRunBegin ==
 OldHold(t) == {h \in HoldFor(t) : jobs[h].tgt \notin gp.plan}
 TRunSubmit ==
   /\ Ev.act = "RunSubmit"
-  /\ IF gp.pc # "run" \/ Ev.t \notin gp.plan THEN Stuck("C02_set")
+  /\ IF gp.pc # "run" \/ Ev.t \notin gp.plan THEN StuckSet(PlanBroken)
      ELSE IF Ev.t \notin gp.todo THEN Stuck("C02_once")
      ELSE IF RunPrereq(Ev.t) \cap gp.todo # {} THEN Stuck("C02_order")
      ELSE /\ RunSubmitH(Ev.t, {h \in S(Ev.hold) : h \in JobIds}) /\ dr' = dr
@@ -142,7 +146,7 @@ EndClauses(e) == {
 
 TRunEnd ==
   /\ Ev.act = "RunEnd"
-  /\ IF gp.pc # "run" \/ gp.todo # {} THEN Stuck("C02_set")
+  /\ IF gp.pc # "run" \/ gp.todo # {} THEN StuckSet(PlanBroken)
      ELSE /\ RunEnd /\ dr' = FALSE
           /\ Judge(EndClauses(Ev) \cup {<<"C02_exit", Ev.exit = 0>>,
                                          <<"C06_rerun_noop", dr => \A t \in gp.plan : w.out[t] = {}, dr>>})
@@ -169,8 +173,10 @@ TCrashWrite ==
   /\ Ev.act = "CrashWrite"
   /\ IF gp.pc # "run" \/ gp.todo # {} THEN Stuck("C02_set")
      ELSE /\ gp' = IdleGp /\ dr' = FALSE
-          /\ trk' = [t \in T |-> Ev.after.trk[t]]
-          /\ hsh' = [t \in T |-> Ev.after.hsh[t]]
+          (* the state goes on from what is on disk (either content is legal); a value that is neither - an id the *)
+          (* scheduler never issued, an unknown hash - fails C09_write_atomic and is replaced by the new content   *)
+          /\ trk' = [t \in T |-> IF Ev.after.trk[t] \in JobIds \cup {NoJob} THEN Ev.after.trk[t] ELSE gp.mtrk[t]]
+          /\ hsh' = [t \in T |-> IF Ev.after.hsh[t] \in NoRec..specv[t] THEN Ev.after.hsh[t] ELSE gp.mhsh[t]]
           /\ Disturb /\ Bump("faults")
           /\ UNCHANGED <<w, specv, fs, clock, jobs, useHash>>
           /\ Log("CrashWrite", [file |-> Ev.file])
@@ -250,15 +256,19 @@ TCancel ==
 
 (* environment and scheduler steps are imposed by the driver: no observation *)
 TEnv ==
-  /\ Ev.act \in {"EditSource", "DeleteOutput", "EditSpec", "SetUseHash"}
+  /\ Ev.act \in {"EditSource", "DeleteOutput", "EditSpec", "SetUseHash", "Rename", "RenameBack"}
   /\ IF \/ Ev.act = "EditSource" /\ ~(Ev.f \in Unresolved(W3) /\ fs[Ev.f] # Missing)
         \/ Ev.act = "DeleteOutput" /\ ~(Ev.f \in AllOut(W3) /\ fs[Ev.f] # Missing)
         \/ Ev.act = "SetUseHash" /\ Ev.v = useHash
+        \/ Ev.act = "Rename" /\ conv.shelf[Ev.t].away
+        \/ Ev.act = "RenameBack" /\ ~conv.shelf[Ev.t].away
      THEN Stuck("C00_env_inapplicable")
      ELSE /\ dr' = FALSE
           /\ \/ Ev.act = "EditSource" /\ EditSource(Ev.f)
              \/ Ev.act = "DeleteOutput" /\ DeleteOutput(Ev.f)
              \/ Ev.act = "EditSpec" /\ EditSpec(Ev.t)
+             \/ Ev.act = "Rename" /\ Rename(Ev.t)
+             \/ Ev.act = "RenameBack" /\ RenameBack(Ev.t)
              \/ Ev.act = "SetUseHash" /\ SetUseHash(Ev.v)
           /\ Judge({})
 
